@@ -1,5 +1,6 @@
 (* C20 — Huffman code construction and bit I/O. Models: Prefix/Code.v
    (GenerateLengths with any limit, GeneratePrefixes), bit fields as bit lists. *)
+From V Require Import Prefix.ReaderImpl Prefix.ReaderSpec Prefix.ReaderThms.
 From V Require Import Base.Prelude Base.Prog Prefix.Code Prefix.Thms Base.ProgThms Flate.Spec Flate.Canon.
 
 (* a bit field written LSB-first is read back unchanged, at any position of
@@ -46,3 +47,20 @@ Theorem canonical_code_is_prefix_free : forall lens s1 l1 c1 s2 l2 c2,
   s1 <> s2 /\ ~ prefix_of (msb_bits (N.to_nat l1) c1) (msb_bits (N.to_nat l2) c2).
 Proof. exact canonical_prefix_free. Qed.
 Print Assumptions canonical_code_is_prefix_free.
+
+(* The implementation-level model of prefix.Reader (64-bit buffer, wide loads with
+   look-ahead bits, Peek/Discard bookkeeping, Flush, raw Read after repair D5; validated
+   against the real Reader over scripted sources on every run) REFINES the abstract bit
+   stream: for every data, both bit orders, every script of the source's freedoms (how much
+   more than asked it buffers, how much a raw Read returns) and every sequence of ReadBits
+   (<= 57 bits) / ReadPads / raw Read / Flush: every value is the value of the next bits of
+   the stream, BitsRead is the abstract position, a raw Read returns the bytes at the
+   aligned position, and after a Flush the source has been advanced over exactly the bytes
+   that hold the bits read (no over-consumption). Same for a ReadByte-only source. *)
+Theorem bit_reader_refines_bit_stream_buffered : reader_refines_buffered.
+Proof. exact reader_refines_buffered_holds. Qed.
+Print Assumptions bit_reader_refines_bit_stream_buffered.
+
+Theorem bit_reader_refines_bit_stream_bytereader : reader_refines_bytereader.
+Proof. exact reader_refines_bytereader_holds. Qed.
+Print Assumptions bit_reader_refines_bit_stream_bytereader.
